@@ -13,6 +13,7 @@ From LR Require Import gen.Consts.
 From LR Require Import proofs.PagingContentP.
 From LR Require Import proofs.PagingRetryP.
 From LR Require Import proofs.PagingTailP.
+From LR Require Import proofs.PagingEofP.
 From Coq Require Import Permutation.
 
 (* ---- pages, no appends: for every store, filter, merge order, limit script and resume script over
@@ -128,6 +129,63 @@ Theorem C03_iter_next : forall j it, wf_journal j -> wfj j it ->
   wfj j (jit_next j it) /\ fl j (jit_next j it) = (if (fl j it <? length (recs j))%nat then S (fl j it) else fl j it).
 Proof. exact jit_next_spec. Qed.
 Print Assumptions C03_iter_next.
+
+(* ---- RANGE queries (partition.JIterator), the window between the chunk iterator's io.EOF and the chunk selector's look at
+   the chunks (model: eof_step). The reader stands at the end of the last chunk of its partition as it was; a writer's flush
+   lands in the window. Full statement: whatever is flushed there, the position after the window is the first record that
+   was not read (nothing of the flush is skipped) *)
+Definition C03_eof_window_statement (restore : bool) : Prop :=
+  forall j it p c (apps : list (N * list event)),
+  wf_journal j -> wfj j it -> j_ci it = Some p -> find_chunk j (j_cid it) = Some c -> last_chunk j = Some c -> ci_read j it = None ->
+  let j' := fold_left (fun a x => jappend a (fst x) (snd x)) apps j in
+  flat j' (jit_pos (fst (eof_step restore j' it))) = fl j it.
+
+Definition ex6_journal : journal := [mkCh 5 [mkEv 1 [x61] []; mkEv 2 [x62] []]].
+Definition ex6_it : jit := mkJit 5 2 (Some 2%N) false.
+Lemma ex6_ok : wf_journal ex6_journal /\ wfj ex6_journal ex6_it /\ j_ci ex6_it = Some 2%N /\
+  find_chunk ex6_journal (j_cid ex6_it) = Some (mkCh 5 [mkEv 1 [x61] []; mkEv 2 [x62] []]) /\
+  last_chunk ex6_journal = Some (mkCh 5 [mkEv 1 [x61] []; mkEv 2 [x62] []]) /\ ci_read ex6_journal ex6_it = None.
+Proof.
+  split; [repeat constructor|]. split; [split; [reflexivity|split; [reflexivity|eexists; split; [reflexivity|cbn; lia]]]|].
+  repeat split; reflexivity.
+Qed.
+
+(* the code (restore = true) when the flush stays in the chunk the reader stands at the end of: the position is kept, and the
+   next Get delivers the first flushed record *)
+Theorem C03_eof_window_partial : forall j it p c evs,
+  wf_journal j -> wfj j it -> j_ci it = Some p -> find_chunk j (j_cid it) = Some c -> last_chunk j = Some c -> ci_read j it = None ->
+  let j' := jappend j (j_cid it) evs in
+  let it2 := fst (eof_step true j' it) in
+  jit_pos it2 = jit_pos it /\ flat j' (jit_pos it2) = fl j it /\ fl j it = length (recs j) /\
+  forall it3 r, jit_get j' it2 = (it3, r) -> r = nth_error (recs j') (fl j it).
+Proof.
+  intros j it p c evs Hs Hw Hci Hf Hl He.
+  destruct (eof_window_kept j it p c evs Hs Hw Hci Hf Hl He) as [A [_ [B [C D]]]]. cbn zeta in *.
+  split; [exact A|]. split; [exact B|]. split; [exact C|exact D].
+Qed.
+Print Assumptions C03_eof_window_partial.
+
+(* the full statement is false of the code: a flush that extends the reader's chunk AND starts a new chunk (a chunk
+   roll-over inside the window) - the selector finds the new chunk, the iterator goes on there and the records the old
+   chunk has got are never read (known finding eof-window-rollover) *)
+Theorem C03_eof_window_refuted : ~ C03_eof_window_statement true.
+Proof.
+  intros H. destruct ex6_ok as [A [B [C [D [E F]]]]].
+  specialize (H ex6_journal ex6_it 2%N _ [(5%N, [mkEv 3 [x63] []]); (9%N, [mkEv 4 [x64] []])] A B C D E F).
+  vm_compute in H. discriminate H.
+Qed.
+Print Assumptions C03_eof_window_refuted.
+
+(* the comparison of the restore the other way round (jit.pos.Idx < eofPos.Idx) never restores: then already a flush into
+   the reader's own chunk is stepped over (the code before /repo ee8da2c behaved like this too) *)
+Theorem C03_eof_window_no_restore_refuted : ~ (forall j it p c evs,
+  wf_journal j -> wfj j it -> j_ci it = Some p -> find_chunk j (j_cid it) = Some c -> last_chunk j = Some c -> ci_read j it = None ->
+  let j' := jappend j (j_cid it) evs in flat j' (jit_pos (fst (eof_step false j' it))) = fl j it).
+Proof.
+  intros H. destruct ex6_ok as [A [B [C [D [E F]]]]].
+  specialize (H ex6_journal ex6_it 2%N _ [mkEv 3 [x63] []] A B C D E F). vm_compute in H. discriminate H.
+Qed.
+Print Assumptions C03_eof_window_no_restore_refuted.
 
 (* ---- content, over all five kinds (the four of the property plus "the previous request sent again", what a
    client does when it retries a page): every delivered event is a stored event of its partition *)
